@@ -342,11 +342,12 @@ struct Cfg {
   int fail = 0;          // job id whose (stub) evaluation FAILS with an error text (0 = none)
   int crash_at = -1, crash_bytes = -1, scan = 0;
   bool recovery = false; // second phase after a crash: one fresh process with restart stat(ASSIGNED)
+  bool ul = false;       // the instant after every thread-mutex release is a scheduling point too
 };
 static std::string cfgstr(const Cfg &c) {
   return "K=" + std::to_string(c.K) + ";T=" + std::to_string(c.T) + ";jobs=" + std::to_string(c.jobs) + ";cache=" + std::to_string(c.cache) +
          ";maxjobs=" + std::to_string(c.maxjobs) + ";seed=" + std::to_string(c.seed) + ";restart=" + c.restart + ";restart2=" + c.restart2 + ";fail=" + std::to_string(c.fail) + ";crash=" +
-         std::to_string(c.crash_at) + ":" + std::to_string(c.crash_bytes) + ";scan=" + std::to_string(c.scan);
+         std::to_string(c.crash_at) + ":" + std::to_string(c.crash_bytes) + ";scan=" + std::to_string(c.scan) + (c.ul ? ";ul=1" : "");
 }
 static Cfg parsecfg(std::map<std::string, std::string> &m) {
   Cfg c;
@@ -354,6 +355,7 @@ static Cfg parsecfg(std::map<std::string, std::string> &m) {
   c.maxjobs = atoi(m["maxjobs"].c_str()); c.seed = atoi(m["seed"].c_str()); c.restart = m["restart"]; c.scan = atoi(m["scan"].c_str());
   c.restart2 = m.count("restart2") ? m["restart2"] : "=";
   c.fail = m.count("fail") ? atoi(m["fail"].c_str()) : 0;
+  c.ul = m.count("ul") && m["ul"] == "1";
   auto cr = bsx::split(m["crash"], ':');
   if (cr.size() == 2) { c.crash_at = atoi(cr[0].c_str()); c.crash_bytes = atoi(cr[1].c_str()); }
   return c;
@@ -532,6 +534,7 @@ static void child_body(const Cfg &c, vs_shared *shm, const std::vector<int> &cho
     if (p > 0 && c.restart2 != "=") procs.back()->cfg.restart = c.restart2;
   }
   if (!io::abs_expect.empty()) vs_set_chooser(abs_chooser, nullptr);
+  vs_set_unlock_points(c.ul ? 1 : 0);
   vs_begin(shm, choices.data(), (int)choices.size(), horizon);
   io::on = true;
   // a new thread inherits the simulated pid of its creator: create each process thread under its own pid
@@ -924,7 +927,7 @@ int main(int argc, char **argv) {
   bsx::Report R;
   R.property = "C10"; R.part = a.kv.count("part") ? a.kv["part"] : "sched"; R.tier = a.tier;
   bool thorough = a.tier == "thorough";
-  R.deadline_s = thorough ? 480 : 50;
+  R.deadline_s = thorough ? 480 : 90;
   vsx::Explorer ex;
   ex.horizon = horizon;
   long long unit = 0, schedules = 0, points = 0, instants = 0, recov = 0, crashpoints = 0;
@@ -979,6 +982,8 @@ int main(int argc, char **argv) {
         Cfg c; c.K = 2; c.T = 1; c.jobs = jobs; c.cache = 1; c.seed = 3; c.restart = rr.first; c.restart2 = rr.second;
         cfgs.push_back(c);
       }
+    // threads of one process share the observer under its thread mutex: there the instant after a release is a point too
+    for (Cfg &c : cfgs) if (c.T >= 2) c.ul = true;
     auto bound_for = [&](const Cfg &c) {
       int n = c.K * c.T;
       if (n == 1) return 0;
@@ -987,7 +992,7 @@ int main(int argc, char **argv) {
     };
     R.rule = "all thread schedules with <= k preemptions (k=1 quick; 2 thorough for 2 workers, 1 for more) of K simulated processes x T threads running the real "
              "ProgObserver (RequestNextJob/ReportJobDone/SyncWithProgFile, boost file_lock on an interposed fcntl with POSIX record-lock semantics per "
-             "simulated pid, every open/read/write of job file and backup a scheduling point), for (K,T) x jobs x cache x maxjobs and restart patterns "
+             "simulated pid, every open/read/write of job file and backup a scheduling point, with T >= 2 also the instant after every thread-mutex release), for (K,T) x jobs x cache x maxjobs and restart patterns "
              "x pre-seeded files; oracle: each eligible job executed exactly once, per-process maxjobs respected, final file complete with status/host/"
              "output of its executor, untouched jobs unchanged, no exception, no deadlock. distinct_nontrivial = distinct (config, executor assignment, final file) observations";
     bool stop = false;
